@@ -17,8 +17,43 @@
         and the two repaired defects (walk of the first Forwarded group; CIDR argument order)
 -/
 import LtVerif.Proofs.Access
+import LtVerif.Proofs.Extforward
 namespace LtVerif.C03
 open LtVerif B LtVerif.Access LtVerif.Extforward
+
+/-! ## objects of the examples and witnesses -/
+
+/-- (a small document root) -/
+def demoFs : Fs := fun p =>
+  if p = ofString "/secret/key.html" ∨ p = ofString "/app.php" then some .file
+  else if p = [] ∨ p = ofString "/secret" then some .dir
+  else none
+
+def demoEnv (u : String) : Env := ⟨ofString u, ofString "h", .v4 [192, 0, 2, 1]⟩
+def demoTarget (u : String) : Target := ⟨ofString u, ofString u, []⟩
+
+/-- url.access-deny = (".inc", "~"), auth.require = ("/secret/" => …), case-sensitive -/
+def demoSrv : Server :=
+  { cfg := [{ scope := .global, deny := some [ofString ".inc", ofString "~"], auth := some [ofString "/secret/"] }],
+    opts := ⟨9567⟩, lc := false, docroot := ofString "/srv", fs := demoFs }
+
+def demoReq : Req :=
+  { target := ofString "/secret/./key%2ehtml", host := ofString "h", peer := ofString "192.0.2.1",
+    peerAddr := .v4 [192, 0, 2, 1], hdrs := [], cred := true }
+
+/-- extforward.forwarder = ("10.0.0.1" => "trust") -/
+def demoFwd : Forwarder := { entries := [(ofString "10.0.0.1", true)], all := 0, masks := [] }
+
+/-- … and `$HTTP["remoteip"] != "10.0.0.0/8" { url.access-deny = ("") }` -/
+def demoSrvIp : Server :=
+  { cfg := [{ scope := .global, forwarder := some demoFwd },
+            { scope := .ip true (.v4 [10, 0, 0, 0]) 8, deny := some [[]] }],
+    opts := ⟨9567⟩, lc := false, docroot := ofString "/srv", fs := demoFs }
+
+/-- a client outside 10/8 that claims to be 10.9.9.9 -/
+def demoSpoof : Req :=
+  { target := ofString "/app.php", host := ofString "h", peer := ofString "203.0.113.9",
+    peerAddr := .v4 [203, 0, 113, 9], hdrs := [(ofString "x-forwarded-for", ofString "10.9.9.9")], cred := false }
 
 /-! ## §1 one canonicalisation -/
 
@@ -107,6 +142,10 @@ theorem c03_served_file_authorised (bf : Bool) (parse : Bytes → Option SockAdd
       obtain ⟨n, hn, h1, h2, _, h4, h5, _, h7, h8, h9, h10⟩ := serveFrom_file s t _ _ _ f h
       exact ⟨t, sa, n, rfl, hn, h1, h2, h4, h5, h7, h8, h9, h10⟩
 
+-- non-vacuity: an encoded, dot-segmented spelling of a guarded file, with credentials
+example : (serve false gaiNumeric demoSrv demoReq).file = some (ofString "/secret/key.html") := by
+  decide +kernel
+
 /-- the rules refuse the file at URL `u` for client address `a`: mod_access denies it or
     static-file.exclude-extensions lists it -/
 def Refused (s : Server) (host u : Bytes) (a : SockAddr) : Prop :=
@@ -136,6 +175,10 @@ theorem c03_protected_never_served_case_sensitive_fs (bf : Bool) (parse : Bytes 
   simp only [Bool.false_eq_true, ↓reduceIte] at hu
   subst hu
   exact hprot a
+
+-- non-vacuity: the hypothesis holds for a file that url.access-deny lists
+example : demoSrv.lc = false ∧ ∀ a, Refused demoSrv (ofString "h") (ofString "/x.inc") a :=
+  ⟨rfl, fun _ => Or.inl rfl⟩
 
 /-- force-lowercase-filenames (case-insensitive file system): if no condition of the
     configuration compares the URL case-sensitively, it is again enough that the rules
@@ -205,6 +248,15 @@ theorem c03_auth_guard_all_spellings (bf : Bool) (parse : Bytes → Option SockA
   rw [List.take_append_drop] at hj
   simp [hj]
 
+-- non-vacuity: the hypotheses hold for the guarded file of the example configuration
+example : (∀ b ∈ demoSrv.cfg, b.auth.isSome = true → b.scope.urlFree) ∧
+          (∀ a, (authHook demoSrv.cfg ⟨ofString "/secret/key.html", ofString "h", a⟩ demoSrv.lc).isSome = true) := by
+  refine ⟨?_, fun _ => rfl⟩
+  intro b hb _
+  simp [demoSrv] at hb
+  subst hb
+  trivial
+
 /-! ## §3 letter case under force-lowercase-filenames -/
 
 /-- mod_access_check() and the auth.require lookup under force-lowercase-filenames depend on
@@ -233,5 +285,220 @@ theorem c03_case_fold_hook (cfg : List Block) (hcb : ∀ b ∈ cfg, b.scope.case
     (u v h : Bytes) (a : SockAddr) (huv : u.map toLower = v.map toLower) :
     accessHook cfg ⟨u, h, a⟩ true = accessHook cfg ⟨v, h, a⟩ true :=
   accessHook_casefold cfg hcb u v h a huv
+
+/-! ## §4 forwarded client addresses -/
+
+/-- Forwarded / X-Forwarded-For (any configured header, any content) from a TCP peer that is
+    not a configured trusted forwarder do not change the client address -/
+theorem c03_untrusted_peer_ignored (bf : Bool) (parse : Bytes → Option SockAddr) (c : ExtConf) (peer : Bytes)
+    (hdrs : List (Bytes × Bytes)) (h : ∀ f, c.forwarder = some f → isConnectionTrusted f peer = false) :
+    remoteAddr bf parse c peer hdrs = .unchanged :=
+  remoteAddr_untrusted bf parse c peer hdrs h
+
+/-- … and conversely the address only ever changes for a trusted peer, to an address that
+    parses -/
+theorem c03_address_changes_only_for_trusted_peer (bf : Bool) (parse : Bytes → Option SockAddr) (c : ExtConf)
+    (peer : Bytes) (hdrs : List (Bytes × Bytes)) (a : Bytes) (sa : SockAddr)
+    (h : remoteAddr bf parse c peer hdrs = .set a sa) :
+    ∃ f, c.forwarder = some f ∧ isConnectionTrusted f peer = true ∧ parse a = some sa := by
+  unfold remoteAddr at h
+  cases hf : c.forwarder with
+  | none => simp [hf] at h
+  | some f =>
+    simp only [hf] at h
+    refine ⟨f, rfl, ?_⟩
+    cases hp : pickHeader c.headers hdrs with
+    | none => simp [hp] at h
+    | some nv =>
+      simp only [hp] at h
+      by_cases ht : isConnectionTrusted f peer = true
+      · refine ⟨ht, ?_⟩
+        simp only [ht, Bool.not_true, Bool.false_eq_true, ↓reduceIte] at h
+        by_cases hn : nv.1 = ofString "forwarded"
+        · simp only [hn, ↓reduceIte] at h
+          exact forwardedAddr_set bf parse f _ a sa h
+        · simp only [hn, ↓reduceIte] at h
+          cases hx : xffAddr parse f nv.2 with
+          | none => simp [hx] at h
+          | some p =>
+            obtain ⟨b, sb⟩ := p
+            simp only [hx, FwdRes.set.injEq] at h
+            obtain ⟨rfl, rfl⟩ := h
+            exact xffAddr_set parse f _ _ _ hx
+      · simp [ht] at h
+
+/-- End to end: for a request from an untrusted peer the whole response is independent of
+    the forwarded headers it carries (they can be replaced by anything). -/
+theorem c03_spoofed_headers_no_effect (bf : Bool) (parse : Bytes → Option SockAddr) (s : Server) (r : Req)
+    (hdrs' : List (Bytes × Bytes))
+    (h : ∀ t f, parseTarget s.opts false r.target = .ok t →
+      (extConf s.cfg ⟨t.path, r.host, r.peerAddr⟩).forwarder = some f → isConnectionTrusted f r.peer = false) :
+    serve bf parse s r = serve bf parse s { r with hdrs := hdrs' } := by
+  unfold serve
+  cases ht : parseTarget s.opts false r.target with
+  | error e => rfl
+  | ok t =>
+    simp only
+    rw [remoteAddr_untrusted bf parse _ r.peer r.hdrs (fun f hf => h t f ht hf),
+        remoteAddr_untrusted bf parse _ r.peer hdrs' (fun f hf => h t f ht hf)]
+
+-- non-vacuity: the hypothesis holds for the spoofing client (which is refused), while the
+-- same request from the trusted forwarder's own address is served
+example : (∀ t f, parseTarget demoSrvIp.opts false demoSpoof.target = .ok t →
+      (extConf demoSrvIp.cfg ⟨t.path, demoSpoof.host, demoSpoof.peerAddr⟩).forwarder = some f →
+      isConnectionTrusted f demoSpoof.peer = false) ∧
+    (serve false gaiNumeric demoSrvIp demoSpoof).status = 403 ∧
+    (serve false gaiNumeric demoSrvIp
+       { demoSpoof with peer := ofString "10.0.0.1", peerAddr := .v4 [10, 0, 0, 1], hdrs := [] }).file
+      = some (ofString "/app.php") := by
+  refine ⟨?_, by decide +kernel⟩
+  intro t f _ hf
+  have h2 : (extConf demoSrvIp.cfg ⟨t.path, demoSpoof.host, demoSpoof.peerAddr⟩).forwarder = some demoFwd := rfl
+  rw [h2] at hf
+  have : f = demoFwd := (Option.some.inj hf).symm
+  subst this
+  decide +kernel
+
+/-- X-Forwarded-For from a trusted peer: the address taken is an element of the chain that
+    is not a trusted proxy, everything to its right is a trusted proxy, and it parses -/
+theorem c03_xff_last_untrusted (parse : Bytes → Option SockAddr) (f : Forwarder) (hdr a : Bytes) (sa : SockAddr)
+    (h : xffAddr parse f hdr = some (a, sa)) :
+    parse a = some sa ∧ isProxyTrusted f a = false ∧
+      ∃ pre post, extractForwardArray hdr = pre ++ a :: post ∧ ∀ x ∈ post, isProxyTrusted f x = true := by
+  unfold xffAddr at h
+  split at h
+  · rename_i a0 hl
+    unfold setAddr at h
+    split at h
+    · rename_i sa0 hp
+      simp only [Option.some.injEq, Prod.mk.injEq] at h
+      obtain ⟨rfl, rfl⟩ := h
+      obtain ⟨h1, h2⟩ := lastNotIn_some f _ _ hl
+      exact ⟨hp, h1, h2⟩
+    · simp at h
+  · simp at h
+
+/-- … exactly that element (the right-most one that is not a trusted proxy); unchanged if it
+    does not parse … -/
+theorem c03_xff_exact (parse : Bytes → Option SockAddr) (f : Forwarder) (hdr : Bytes) (pre post : List Bytes)
+    (a : Bytes) (hc : extractForwardArray hdr = pre ++ a :: post) (ha : isProxyTrusted f a = false)
+    (hpost : ∀ x ∈ post, isProxyTrusted f x = true) :
+    xffAddr parse f hdr = (parse a).map (fun sa => (a, sa)) := by
+  unfold xffAddr
+  rw [hc, lastNotIn_exact f pre post a ha hpost]
+  unfold setAddr
+  cases hp : parse a <;> simp [hp]
+
+/-- … and unchanged if every element is a trusted proxy -/
+theorem c03_xff_all_trusted_unchanged (parse : Bytes → Option SockAddr) (f : Forwarder) (hdr : Bytes)
+    (h : ∀ x ∈ extractForwardArray hdr, isProxyTrusted f x = true) : xffAddr parse f hdr = none := by
+  unfold xffAddr
+  rw [(lastNotIn_none f _).2 h]
+
+-- non-vacuity: forwarder 10.0.0.1 and 10.1.0.0/16; chain client, attacker-visible hop, two proxies
+example :
+    (parseForwarder [(ofString "10.0.0.1", ofString "trust"), (ofString "10.1.0.0/16", ofString "trust")]).map
+      (fun f => (xffAddr gaiNumeric f (ofString "6.6.6.6, 203.0.113.9, 10.1.2.3, 10.0.0.1")).map (·.1))
+    = some (some (ofString "203.0.113.9")) := by decide +kernel
+
+/-- Forwarded from a trusted peer, safety: the identifier the walk returns is the for= value
+    of one of the proxies, usable as an address, and every proxy to its right in the header
+    reported a trusted identifier (or none): an untrusted hop is never skipped. -/
+theorem c03_forwarded_walk_safe (f : Forwarder) (hdr : Bytes) (items : List Item) (a : Bytes)
+    (h : fwdWalk f hdr items = .addr (some a)) :
+    ∃ pre g post, (groups items).reverse = pre ++ g :: post ∧ (∀ g' ∈ pre, Passes f hdr g') ∧
+      groupVal hdr g = some (.val a) ∧ a ≠ [] ∧ usable a = true := by
+  unfold fwdWalk at h
+  rcases fwdWalk_safe f hdr _ none a h with h | h
+  · simp at h
+  · exact h
+
+/-- Forwarded, exactness: if the right-most proxy whose identifier is not trusted reports a
+    usable identifier, that identifier is the result (the last untrusted hop) -/
+theorem c03_forwarded_walk_exact (f : Forwarder) (hdr : Bytes) (items : List Item)
+    (pre : List (List Item)) (g : List Item) (post : List (List Item)) (a : Bytes)
+    (hg : (groups items).reverse = pre ++ g :: post) (hpre : ∀ g' ∈ pre, Passes f hdr g')
+    (hv : groupVal hdr g = some (.val a)) (hne : a ≠ []) (hu : usable a = true)
+    (hnt : isProxyTrusted f a = false) : fwdWalk f hdr items = .addr (some a) := by
+  unfold fwdWalk
+  rw [hg]
+  exact fwdWalk_exact f hdr pre g post none a hpre hv hne hu hnt
+
+-- non-vacuity (and the case the repaired defect D9 got wrong): a single for=, and a chain
+-- whose answer is the first element
+example :
+    (parseForwarder [(ofString "10.0.0.1", ofString "trust")]).map (fun f =>
+      (forwardedAddr false gaiNumeric f (ofString "for=1.2.3.4"),
+       forwardedAddr false gaiNumeric f (ofString "for=\"[2001:db8::7]:4711\";proto=https, For=10.0.0.1")))
+    = some (.set (ofString "1.2.3.4") (.v4 [1, 2, 3, 4]),
+            .set (ofString "2001:db8::7") (.v6 [0x20, 1, 0xd, 0xb8, 0, 0, 0, 0, 0, 0, 0, 0, 0, 0, 0, 7])) := by
+  decide +kernel
+
+/-! ## §5 what is NOT guaranteed, and the repaired defects -/
+
+/-- Design limit 1: `$HTTP["url"]` conditions are case-sensitive also under
+    force-lowercase-filenames.  With `$HTTP["url"] =^ "/secret/" { url.access-deny = ("") }`
+    the file /secret/key.html is refused at its own URL but sent for /SECRET/key.html.
+    (Hence the hypothesis `caseBlind` of c03_protected_never_served_force_lowercase; a
+    case-insensitive regular expression `=~ "(?i)^/secret/"` satisfies it.) -/
+theorem c03_url_cond_case_sensitive :
+    let s : Server := { cfg := [{ scope := .global }, { scope := .url .prefix_ (ofString "/secret/"), deny := some [[]] }],
+                        opts := ⟨9567⟩, lc := true, docroot := ofString "/srv", fs := demoFs }
+    (serveFrom s (demoTarget "/secret/key.html") (demoEnv "/secret/key.html") [] false).status = 403 ∧
+    (serveFrom s (demoTarget "/SECRET/key.html") (demoEnv "/SECRET/key.html") [] false).file
+      = some (ofString "/secret/key.html") := by
+  decide +kernel
+
+/-- Design limit 2: mod_auth runs before the path-info split only, so a condition that
+    selects by the END of the URL does not guard auth.require against trailing path-info:
+    with `$HTTP["url"] =$ ".php" { auth.require = ("" => …) }` /app.php asks for credentials
+    but /app.php/x is served.  (Hence the hypothesis `urlFree` of c03_auth_guard_all_spellings;
+    url.access-deny inside the same condition IS re-checked: c03_served_file_authorised.) -/
+theorem c03_auth_suffix_cond_partial :
+    let s : Server := { cfg := [{ scope := .global }, { scope := .url .suffix (ofString ".php"), auth := some [[]] }],
+                        opts := ⟨9567⟩, lc := false, docroot := ofString "/srv", fs := demoFs }
+    (serveFrom s (demoTarget "/app.php") (demoEnv "/app.php") [] false).status = 401 ∧
+    (serveFrom s (demoTarget "/app.php/x") (demoEnv "/app.php/x") [] false).file = some (ofString "/app.php") := by
+  decide +kernel
+
+/-- Design limit 3: conditions are matched by PCRE2 in UTF mode; a URL that is not well-formed
+    UTF-8 (a stray %80 is accepted by the default parse options) matches NO regular
+    expression.  So even a prefix expression does not guard auth.require against a path-info
+    with such a byte: with `$HTTP["url"] =~ "(?i)^/secret/" { auth.require = … }`
+    /secret/key.html asks for credentials, /secret/key.html/%80 is served. -/
+theorem c03_regex_cond_invalid_utf8 :
+    let s : Server := { cfg := [{ scope := .global },
+                                { scope := .urlRe false (reCaselessPrefix (ofString "/secret/")), auth := some [[]] }],
+                        opts := ⟨9567⟩, lc := false, docroot := ofString "/srv", fs := demoFs }
+    (serveFrom s (demoTarget "/secret/key.html") (demoEnv "/secret/key.html") [] false).status = 401 ∧
+    (serveFrom s ⟨ofString "/secret/key.html/%80", ofString "/secret/key.html/" ++ [0x80], []⟩
+       ⟨ofString "/secret/key.html/" ++ [0x80], ofString "h", .v4 [192, 0, 2, 1]⟩ [] false).file
+      = some (ofString "/secret/key.html") := by
+  decide +kernel
+
+/-- Repaired defect D9 (fix 2c1995d): the walk `while (j >= 4)` never looked at a param that is
+    alone in the first group, so `Forwarded: for=1.2.3.4` from a trusted proxy left the
+    proxy's address in place and `for=1.2.3.4, for=10.0.0.1` selected the trusted proxy
+    itself.  The model of the old walk differs from the current one exactly there. -/
+theorem c03_forwarded_first_group_before_fix :
+    (parseForwarder [(ofString "10.0.0.1", ofString "trust")]).map (fun f =>
+      (forwardedAddr true gaiNumeric f (ofString "for=1.2.3.4"),
+       forwardedAddr true gaiNumeric f (ofString "for=1.2.3.4, for=10.0.0.1"),
+       forwardedAddr false gaiNumeric f (ofString "for=1.2.3.4, for=10.0.0.1")))
+    = some (.unchanged, .set (ofString "10.0.0.1") (.v4 [10, 0, 0, 1]), .set (ofString "1.2.3.4") (.v4 [1, 2, 3, 4])) := by
+  decide +kernel
+
+/-- Repaired defect D16 (fix 85b1beb): is_proxy_trusted() passed (candidate, network, bits) to
+    sock_addr_is_addr_eq_bits(), which reads `bits` relative to its first argument: every
+    IPv4-mapped IPv6 literal was a trusted proxy as soon as any IPv4 netmask was configured,
+    so `X-Forwarded-For: 6.6.6.6, ::ffff:203.0.113.9` selected the attacker-chosen 6.6.6.6. -/
+theorem c03_cidr_argument_order_before_fix :
+    (parseForwarder [(ofString "10.0.0.1", ofString "trust"), (ofString "10.1.0.0/16", ofString "trust")]).map
+      (fun f => (isProxyTrustedOrd false f (ofString "::ffff:203.0.113.9"),
+                 isProxyTrustedOrd true f (ofString "::ffff:203.0.113.9"),
+                 isProxyTrustedOrd true f (ofString "::ffff:10.1.2.3"),
+                 (xffAddr gaiNumeric f (ofString "6.6.6.6, ::ffff:203.0.113.9")).map (·.1)))
+    = some (true, false, true, some (ofString "::ffff:203.0.113.9")) := by
+  decide +kernel
 
 end LtVerif.C03
